@@ -58,7 +58,7 @@ func (p *c18Plan) anySigner() int { return idSigner0 + p.r.Intn(nSigners) }
 func (p *c18Plan) anyContract() int { return idContract0 + p.r.Intn(p.nC()) }
 
 func (p *c18Plan) anyWithdrawer(ci int) int {
-	switch p.r.Pick(8, 4, 3, 2, 1, 1) {
+	switch p.r.Pick(8, 4, 3, 2, 1, 2) {
 	case 0:
 		return idPlain0 + p.r.Intn(nPlain)
 	case 1:
@@ -111,7 +111,7 @@ func (p *c18Plan) amount() string {
 
 func (p *c18Plan) paramsStep() c18Step {
 	st := c18Step{Op: "params", Enabled: !p.r.Chance(1, 8), Allowed: []int{}}
-	if p.r.Chance(1, 25) {
+	if p.r.Chance(1, 12) {
 		// refused by Params.Validate: nothing changes
 		st.Share = []string{"1000000000000000001", "-1", "2000000000000000000"}[p.r.Intn(3)]
 		return st
@@ -334,7 +334,7 @@ func genC18Case(r *Rng) c18Case {
 		case 3:
 			p.cs.Steps = append(p.cs.Steps, c18Step{Op: "block"})
 		case 4:
-			p.cs.Steps = append(p.cs.Steps, p.paramsStep())
+			p.cs.Steps = append(p.cs.Steps, p.paramsStep(), p.execTx())
 		case 5:
 			p.cs.Steps = append(p.cs.Steps, p.regTx(r.Intn(p.nC()), !malformed && r.Chance(1, 2)))
 		}
@@ -414,6 +414,10 @@ func c18Openers() []c18Case {
 			tx(3, f("0", "5", "1", "1000", "2", "7"), c18Msg{K: "exec", C: 9, Good: true, Nested: 9}),
 			tx(3, f("0", "5", "1", "1000", "2", "7"), ex(8), c18Msg{K: "exec", C: 9, Good: true, Nested: 9}, ex(8)),
 			tx(3, f("2", "100"), ex(10)), // blocked withdrawer: whole tx rejected
+			tx(4, f("2", "100"), c18Msg{K: "upd", C: 10, W: 0}),
+			tx(3, f("2", "100"), ex(10)), // the fee collector itself as withdrawer: blocked as well
+			{Op: "params", Enabled: true, Share: "2000000000000000000"}, // refused: share stays 1/3
+			tx(3, f("0", "50", "2", "70"), ex(8), ex(8)),
 			{Op: "params", Enabled: false, Share: "333333333333333333"},
 			tx(3, f("2", "100"), ex(8)),
 			tx(3, f("2", "100"), reg(10, 6)),
